@@ -1,9 +1,11 @@
 // nodesim: C11 harness (group Valid). Runs the REAL code of /repo:
-//   H-NODE  a single-replica in-process server; every vector is sent over the redis protocol, so
-//           validation -> propose -> raft -> apply is the production path;
-//   H-SM    real kv state machines driven through ApplyRaftRequest: a sandbox that receives every
-//           vector (panic oracle with recover) and a replica pair A/B where A receives what the
-//           leader accepted and B the same minus the requests that answered with an error.
+//
+//	H-NODE  a single-replica in-process server; every vector is sent over the redis protocol, so
+//	        validation -> propose -> raft -> apply is the production path;
+//	H-SM    real kv state machines driven through ApplyRaftRequest: a sandbox that receives every
+//	        vector (panic oracle with recover) and a replica pair A/B where A receives what the
+//	        leader accepted and B the same minus the requests that answered with an error.
+//
 // Writes cases.tsv (model input), impl.out (projected observables compared with the model),
 // oracle.tsv (observables of the direct oracle) and journal.txt (vector in flight) into -out.
 package main
@@ -331,7 +333,7 @@ func main() {
 			continue
 		}
 		facts := ln.facts(v.args)
-		co.Printf("L%s\tL\t%s\t%s\n", id, argsH, facts)
+		co.Printf("L%s\tL\t%s\t%s\t%s\n", id, argsH, facts, floatTable(v.args))
 		flushAll()
 		fmt.Fprintf(jf, "%s\t%s\n", id, argsH)
 
@@ -394,7 +396,7 @@ func main() {
 			} else {
 				rq = applyReq{dtype: node.RedisV2Req, args: v.args}
 			}
-			co.Printf("A%s.%d\tA\t%d\t%s\n", id, form, form, hx.HL(rq.args))
+			co.Printf("A%s.%d\tA\t%d\t%s\t%s\n", id, form, form, hx.HL(rq.args), floatTable(rq.args))
 			res := sand.applyEntries([][]applyReq{{rq}}, nextTs())
 			out := "nopanic"
 			rs := "none"
@@ -461,8 +463,8 @@ func createOut(path string) *outF {
 	return &outF{f, bufio.NewWriterSize(f, 1<<20)}
 }
 func (o *outF) Printf(format string, a ...interface{}) { fmt.Fprintf(o.w, format, a...) }
-func (o *outF) Flush()                                  { o.w.Flush() }
-func (o *outF) Close()                                  { o.w.Flush(); o.f.Close() }
+func (o *outF) Flush()                                 { o.w.Flush() }
+func (o *outF) Close()                                 { o.w.Flush(); o.f.Close() }
 
 // dangerClass recognises the input classes of known findings that take the process down
 // (used only with -avoid, i.e. while the finding is open).
